@@ -3,10 +3,10 @@
 ORACLES = {
     "C04": {"holder_accepts_issued", "fresh_e", "fresh_v", "cl_equation", "e_prime_in_range", "vpp_bits", "m2_context",
             "model_issuer_accepted"},
-    "C05": {"issuer_rejects_altered", "holder_rejects_altered", "holder_rejects_altered_key", "holder_accepts_issued",
+    "C05": {"issuer_rejects_altered", "holder_rejects_altered", "holder_rejects_altered_key", "holder_accepts_issued", "key_proof_accepted",
             "reference_issuer_verdict", "reference_holder_accepted"},
     "C06": {"one_r_per_attribute", "revocation_part_presence", "key_proof_accepted", "rev_key_corresponds",
-            "rev_generators_distinct", "holder_rejects_altered_key", "key_oracle"},
+            "rev_generators_distinct", "holder_rejects_altered_key", "key_oracle", "key_proof_accepted"},
     "C07": {"holder_accepts_issued", "reference_issuer_verdict", "reference_holder_accepted"},
     "C20": {"issuer_no_panic", "holder_no_panic"},
 }
@@ -161,5 +161,36 @@ def cmp_ctx(prop, case, model, mat, F, variant, final):
     return True
 
 
-COMPARATORS = {"ctx": cmp_ctx, "blinded_check": cmp_bool_check, "key_proof_check": cmp_bool_check, "sig_check": cmp_sig_check,
+
+def cmp_key_prove(prop, case, model, mat, F, variant, final):
+    """reference issuer for the key proof: the model builds key + proof, the real holder judges"""
+    if bad_model(model, case, F, variant, final):
+        return False
+    if model.get("status") != "ok":
+        if final:
+            F.mismatch("model_key_prove", "%s: model key prover failed: %s" % (case["id"], model), case, variant, model)
+        return False
+    ex = case["impl"]["exec"]
+    inp = dict(ex["in"])
+    inp["pk"] = model["pk"]
+    inp["proof"] = model["proof"]
+    r = mat.call(ex["op"], inp)
+    if r is None or not final:
+        return r is not None
+    real = (r.get("status") == "ok")
+    want = bool(case["impl"].get("expect_accept"))
+    v = case["impl"].get("variant")
+    if real and not want:
+        F.oracle_failure("holder_rejects_altered_key", "%s: blind_credential_secrets accepted a key whose correctness proof is '%s' (reference issuer, consistent challenge)" % (case["id"], v), case, variant)
+    if not real and want:
+        F.oracle_failure("key_proof_accepted", "%s: blind_credential_secrets refused the reference issuer's '%s' key proof: %s" % (case["id"], v, r.get("msg")), case, variant)
+    if r.get("status") == "panic":
+        F.oracle_failure("holder_no_panic", "%s: blind_credential_secrets panicked on the reference issuer's '%s' key proof: %s" % (case["id"], v, r.get("msg")), case, variant)
+    ma = accept(model.get("model_verdict"))
+    if ma != real:
+        F.mismatch("key_proof_check", "%s (%s): implementation %s, model %s" % (case["id"], v, "accepts" if real else "rejects", "accepts" if ma else "rejects"), case, variant, model.get("model_verdict"))
+    return True
+
+
+COMPARATORS = {"key_prove": cmp_key_prove, "ctx": cmp_ctx, "blinded_check": cmp_bool_check, "key_proof_check": cmp_bool_check, "sig_check": cmp_sig_check,
                "sign": cmp_sign, "blind_prove": cmp_blind_prove, "key_check": cmp_key_check, "issue_failed": cmp_none}
